@@ -62,6 +62,10 @@ def run_worker(modname, inst, excluded, witness):
         out = (ex.stdout or b"").decode("utf8", "replace") if isinstance(ex.stdout, bytes) else (ex.stdout or "")
         err = "hard timeout after %ds" % hard
         rc = -9
+        # inconclusive, not a crash: one path outlasted the budget (CrossHair checks its time limits between paths)
+        return {"fn": inst["fn"], "params": inst["params"], "witness": witness, "messages": [], "paths": 0, "z3_checks": 0,
+                "z3_seconds": 0.0, "hard_timeout": True, "name": inst["name"], "elapsed": round(time.time() - t0, 2),
+                "notes": [err]}
     rec = None
     for line in out.splitlines():
         if line.startswith("@@RESULT@@"):
@@ -79,6 +83,8 @@ def classify(rec):
     """-> one of confirmed / refuted / unknown / pre_unsat / crash, plus the message"""
     if rec.get("skipped"):
         return "skipped", None
+    if rec.get("hard_timeout"):
+        return "unknown", None
     if rec.get("crash"):
         return "crash", None
     states = [m["state"] for m in rec["messages"]]
@@ -272,11 +278,11 @@ def main():
     for i in insts:
         fams.setdefault(i["fn"], []).append(i)
     jobs = [(i, False) for i in insts]
-    # one reachability twin per family (quick) / per instance up to 40 (thorough)
+    # one reachability twin per family (quick) / up to 9 spread over the family (thorough); vacuity is judged per family
     wit = []
     for fn, lst in fams.items():
         lst = sorted(lst, key=lambda i: i["name"])
-        take = lst[-1:] if tier == "quick" else lst[-40:]
+        take = lst[-1:] if tier == "quick" else (lst[::max(1, len(lst) // 8)][:8] + lst[-1:])
         if hasattr(mod, "witness_instances"):
             take = mod.witness_instances(fn, lst, tier)
         wit.extend(take)
@@ -307,6 +313,8 @@ def main():
     nontrivial = 0
     inst_records = []
     nrep = 0
+    vacuous = {}        # family -> witness twins that found nothing
+    witnessed = set()   # families with at least one replayed, true, non-trivial witness
     for rec in sorted(results, key=lambda r: (r["witness"], r["name"])):
         kind, msg = classify(rec)
         if kind == "skipped":
@@ -333,20 +341,26 @@ def main():
                     concrete_runs += 1
                     if res.get("ok") is True:
                         counts["witness_ok"] += 1
+                        witnessed.add(rec["fn"])
                         if len(samples) < 12:
                             samples.append({"instance": rec["name"], "args": ce[1], "real_call": str(res.get("call"))[:300],
                                             "real_result": str(res.get("observed"))[:300]})
                     elif res.get("ok") is None:
                         counts["witness_ok"] += 1
+                        witnessed.add(rec["fn"])
                     else:
                         counts["witness_bad"] += 1
                         problems.append("witness %s: solver says the property holds on %r but the real code disagrees: %s"
                                         % (rec["name"], ce[1], json.dumps(res, default=str)[:400]))
             elif kind == "unknown":
                 entry["note"] = "witness search inconclusive"
+            elif kind == "confirmed":
+                # no non-trivial true instance inside THIS instance's slice (e.g. zero runs): vacuity is judged per family below
+                entry["note"] = "no non-trivial witness in this instance"
+                vacuous.setdefault(rec["fn"], []).append(rec["name"])
             else:
                 counts["witness_bad"] += 1
-                problems.append("witness %s: verdict %s (%s) - harness vacuous or crashed: %s" % (
+                problems.append("witness %s: verdict %s (%s) - harness crashed: %s" % (
                     rec["name"], kind, [m["message"][:120] for m in rec["messages"]], rec.get("stderr", "")[-400:]))
             inst_records.append(entry)
             continue
@@ -395,6 +409,13 @@ def main():
                                     % (rec["name"], ce[1], msg["message"][:200], json.dumps(res, default=str)[:300]))
         inst_records.append(entry)
 
+    n_hard = sum(1 for r in results if r.get("hard_timeout") and not r["witness"])
+    if n_hard and n_hard * 2 >= max(1, sum(1 for r in results if not r["witness"] and not r.get("skipped"))):
+        problems.append("%d instances ran into the hard time limit without any verdict" % n_hard)
+    for fam, names in vacuous.items():
+        if fam not in witnessed:
+            counts["witness_bad"] += 1
+            problems.append("family %s: no reachability twin found a non-trivial true instance (%s) - harness vacuous" % (fam, ", ".join(names[:5])))
     wall = time.time() - t_start
     n_inst = sum(1 for r in results if not r["witness"] and not r.get("skipped"))
     exhaustive = (n_inst > 0 and counts["confirmed"] == n_inst and not counts["skipped_budget"] and not problems and not violations)
